@@ -506,12 +506,13 @@ static void run_load(const Scn &s) {
     case 3: cert = pki("srv_rsa.pem"); key = pki("ca_rsa.pem"); ca = pki("ca_rsa.pem"); expect_fail = true; break;        // private key file holds a certificate
     case 7: expect_fail = true; break;
     case 4: cert = pki("srv_rsa.pem"); key = pki("srv_rsa.key"); ca = pki("ca_rsa.key"); expect_fail = true; break;       // CA file is not a certificate
+    case 8: ca = pki("ca_rsa.pem") + ";" + pki("@ca_rich_ext.pem"); server = false; partner = K_SRV_RSA; hsS.suite = 0x009C; break;   // trust store with a CA whose extensions use every GeneralName kind (otherName, URI, dirName, IPv6...), issuerAltName, nameConstraints, policies, CRL DP, AIA
     default: break;
     }
     // opts == NULL is the common usage (key type auto-detected); the BAD variants and the ticket-key-delete variants name the key type
     matrixSslLoadKeysOpts_t lo; memset(&lo, 0, sizeof lo); lo.key_type = (s.sub == 1) ? PS_ECC : PS_RSA;
     matrixSslLoadKeysOpts_t *lop = (expect_fail || s.order || s.sub == 7) ? &lo : NULL;
-    if (s.sub <= 4) {
+    if (s.sub <= 4 || s.sub == 8) {
         if (s.sub == 0) hsS.suite = s.order ? 0x002F : 0x009C;   // cheap usability handshakes (RSA key transport)
         rc = API(matrixSslLoadKeys(k, cert.empty() ? NULL : cert.c_str(), key.empty() ? NULL : key.c_str(), NULL, ca.empty() ? NULL : ca.c_str(), lop));
         outcome("LoadKeys=%d;", rc);
@@ -785,6 +786,9 @@ static void build_scenarios() {
         s.exts = false; s.pmtu = 0; s.gck = s.gsk = -1; s.group = (i & 1) ? 1 : 0;
         s.name = fmt("two-phase/%s", cn[i]); g_scn.push_back(s);
     }
+    // (appended later: load sub 8)
+    { Scn s; s.kind = SC_LOAD; s.sub = 8; s.ver = TLS12; s.suite = 0; s.ckey = s.skey = 0; s.hs = H_FULL; s.cred = GOOD; s.data = false; s.order = 0; s.exts = false; s.pmtu = 0; s.gck = s.gsk = -1; s.group = 0;
+      s.name = "load/client-trust-store-rich-extensions"; g_scn.push_back(s); }
 }
 
 // ------------------------------------------------------------------------------------------------ child
